@@ -811,7 +811,7 @@ func PoolProfile(orders bool) Profile {
 	p.W["dustorder"], p.W["fillorder"] = 2, 4
 	if orders {
 		p.W["addorder"], p.W["remorder"] = 25, 8
-		p.W["dustorder"], p.W["fillorder"], p.W["remdust"] = 6, 14, 4
+		p.W["dustorder"], p.W["fillorder"], p.W["remdust"] = 10, 18, 4
 	}
 	p.PGasCustom = 0.3
 	p.PDup, p.PGarbage, p.PBadNonce, p.PBadSig = 0, 0, 0.01, 0.01
